@@ -308,7 +308,7 @@ def run(ctx):
             if fname in ('modularity_und', 'modularity_dir') and not has_edge[fname]:
                 continue
             key0 = fname.split(':')[0]
-            ref = None
+            ref, ref_v = None, []
             for nm, labels in variants:
                 c = np.array(labels, dtype=np.int64)
                 c0 = c.copy()
@@ -330,8 +330,14 @@ def run(ctx):
                 except Exception as e:
                     ctx.fail(key0 + ':raises', 'raised %r' % (e,), case); continue
                 ctx.check(np.array_equal(c, c0), key0 + ':pure', 'the label vector was modified in place', case)
+                # input-representation layer: the relabelled call is compared with the base call, and the model runs later -> the case
+                # carries the representation(s) the two calls ran on
+                tie_variants(case)
+                if nm != 'base' and ref_v:
+                    case['_input_variant'] = list(case.get('_input_variant') or []) + ref_v
                 if nm == 'base':
                     ref = out
+                    ref_v = list(case.get('_input_variant') or [])
                     want = orc(labels)
                     if fname == 'diversity_coef_sign' and K == 1:
                         pass            # log(1) = 0 in the denominator: undefined for a single module
@@ -377,7 +383,7 @@ def run(ctx):
                 Wg[d][d] = VALS[int(r.randint(0, len(VALS)))] * int(r.choice([-1, 1]))      # the routine clears the diagonal
         Ag = npm(Wg)
         for cm in ('degree',):
-            ref = None; ref_r = None
+            ref = None; ref_r = None; gref_v = []
             for nm, labels in variants:
                 c = np.array(labels, dtype=np.int64)
                 case = {'fn': 'gateway_coef_sign', 'W': sW(Wg), 'ci': [int(x) for x in labels], 'relabelling': nm, 'centrality': cm}
@@ -393,6 +399,11 @@ def run(ctx):
                 except Exception as e:
                     ctx.fail('gateway_coef_sign:raises', 'raised %r' % (e,), case); continue
                 ctx.check(np.array_equal(A0, Ag), 'gateway_coef_sign:pure', 'the matrix was modified in place', case)
+                tie_variants(case)
+                if nm == 'base':
+                    gref_v = list(case.get('_input_variant') or [])
+                elif gref_v:
+                    case['_input_variant'] = list(case.get('_input_variant') or []) + gref_v
                 # monotone renamings give the same canonical labels: in the quick tier only those that can change the block
                 # order (and one huge) go through the model
                 if ctx.thorough or nm in ('base', 'neg-rev', 'perm', 'mix', 'huge'):
